@@ -12,7 +12,7 @@ from translate import astutil
 
 PINS = VERIF / "translate" / "pins_C01.json"
 PINNED = [("redun/scheduler.py", "Scheduler", "evaluate"), ("redun/scheduler.py", "Scheduler", "_evaluate_apply"),
-          ("redun/scheduler.py", None, "catch"), ("redun/functools.py", None, "seq"),
+          ("redun/scheduler.py", None, "catch"), ("redun/scheduler.py", None, "catch_all"), ("redun/functools.py", None, "seq"),
           ("redun/promise.py", "Promise", "all"), ("redun/scheduler.py", "Scheduler", "_done_job_main_thread"),
           ("redun/scheduler.py", "Scheduler", "_resolve_job_main_thread")]
 
@@ -167,11 +167,28 @@ class Check(PropertyCheck):
         for i in range(n):
             limits = {r: self.rng.choice([1, 2, 3]) for r in jobcheck.RES}
             spec = jobgen.gen_spec(self.rng, jobcheck.RES, depth=self.rng.randint(1, 3), limits=limits,
-                                   allow_ctx=(i % 2 == 0))
+                                   allow_ctx=(i % 2 == 0), allow_all=(i % 3 != 0))
             rc = {"k": 1} if i % 5 == 0 else None
             out = sched.run_program(lambda: vm.call(spec), limits, self.rng, context=rc,
                                     cache=(i % 7 != 0))
             runs.append((spec, out, rc))
+        # catch_all is positional: several failing terms with distinct errors, failing at different depths (so the
+        # completion order differs from the position order) -- seeded change C01a
+        for i in range(30 if self.tier == "quick" else 500):
+            kids = []
+            for j in range(self.rng.randint(2, 4)):
+                if self.rng.random() < 0.6:
+                    s = (f"tf{i}_{j}", "raise", f"boom{j}", (), None)
+                else:
+                    s = (f"tl{i}_{j}", "leaf", j, (), None)
+                for d in range(self.rng.randint(0, 2)):
+                    s = (f"tw{i}_{j}_{d}", "list", 0, (s,), None)
+                kids.append(s)
+            spec = (f"ta{i}", "all", self.rng.choice([0, 1, 2]), tuple(kids), None)
+            if self.rng.random() < 0.3:
+                spec = (f"tc{i}", "catch", 0, (spec,), None)
+            out = sched.run_program(lambda: vm.call(spec), {}, self.rng, complete_prob=self.rng.choice([0.1, 0.5, 0.9]))
+            runs.append((spec, out, None))
         for spec, out, rc in runs:
             self.evaluations += 1
             try:
@@ -208,7 +225,7 @@ class Check(PropertyCheck):
                 except ref.Raised as e:
                     exp = ("err", e.msgs)
                 good = ("result" in out and exp[0] == "val" and norm(exp[1]) == norm(out["result"])) or (
-                    "error" in out and exp[0] == "err")
+                    "error" in out and exp[0] == "err" and out["error"][1] in exp[1])
                 if not good:
                     print("replay: still differs (seed", sd, ")")
                     return 1
